@@ -63,8 +63,15 @@ def run(ctx):
                        'the eventfd written to is the registered, non-blocking read descriptor -- is established on the fallback path too: on every '
                        'success path of registration that ends in pipe mode (eventfd missing) the descriptor stored as write end is the write end of '
                        'the pipe whose read end was registered, and it has been made non-blocking (shared with C09 R-C09b, registration part)', floor=4)
+    ctx.rule('R-C15h', 'same interest set under every poll method: a method that keeps the set of watched descriptors in user-space arrays '
+                       '(poll, ppoll) instead of in the kernel (epoll, where the kernel finds the entry by the descriptor itself) addresses an '
+                       'entry through the index it recorded in the descriptor, so after every notify slot, on every path, each descriptor '
+                       'still in the arrays satisfies fds[fd->index] == fd: an appended entry records the old count as its index and is pointed '
+                       'back to from that slot; when an entry other than the last is removed, the descriptor moved into the hole is given the '
+                       'vacated index and the slot points back to it (shared with C02 R-C02f, index / back-pointer part)', floor=4)
     ctx.section(lambda c: __import__('ivy.rules.c04', fromlist=['x']).keep_armed(c, 'R-C15f'))
     ctx.section(transparent_post)
+    ctx.section(slot_bookkeeping)
     ctx.section(vtable)
     ctx.section(fallbacks)
     ctx.section(eintr)
@@ -86,6 +93,26 @@ def transparent_post(ctx):
     R-C15c judges the EINTR discipline of that write itself."""
     c09 = __import__('ivy.rules.c09', fromlist=['x'])
     c09.nonblock(h15.Borrowed(ctx, {'R-C09b': 'R-C15g'}, keep=lambda inst: inst.startswith('register:')))
+
+
+# --------------------------------------------------------------------------
+# R-C15h: the user-space interest arrays of poll/ppoll stay addressable through the index kept in the descriptor
+# --------------------------------------------------------------------------
+
+def slot_bookkeeping(ctx):
+    """Borrowed from c02.compaction (owner: C02), index / back-pointer part.  Under epoll a later handler change of a
+    descriptor reaches *its* kernel entry because the kernel looks the entry up by the descriptor; poll and ppoll look
+    it up through `fd->index`.  The two agree iff fds[fd->index] == fd holds for every descriptor in the arrays after
+    every notify slot.  c02.compaction executes each notify slot of every method whose poll slot waits on a pollfd
+    array (found by what the poll slot calls, not by table name) symbolically with its helpers inlined, per path: a
+    path that steps the count up must store the old count into the descriptor's index field and the descriptor into
+    the pointer array at that index; a path that steps it down and does not know the removed entry to be the last one
+    must leave, in the memory at its end, (moved descriptor).index == vacated index and pointer array[vacated index] ==
+    the descriptor loaded from the old last position.  The obligations are about the memory at the end of the path,
+    not about statements: order, locals, helpers, an unconditional self-move of the last entry do not matter.  What
+    the vacated pollfd entry must contain (fd / events: `*-entry-complete`) is C02's own clause and is not repeated."""
+    c02 = __import__('ivy.rules.c02', fromlist=['x'])
+    c02.compaction(h15.Borrowed(ctx, {'R-C02f': 'R-C15h'}, keep=lambda inst: inst.endswith(('-index', '-pointer'))))
 
 
 # --------------------------------------------------------------------------
